@@ -75,6 +75,11 @@ impl Effect for Distortion {
 				),
 			};
 			output /= drive;
+			if drive == 0.0 {
+				// 0.0 / 0.0 is NaN: a silent drive leaves the signal undistorted,
+				// which is the limit of clip(x * drive) / drive for small drives
+				output = *frame;
+			}
 
 			*frame = output * mix.sqrt() + *frame * (1.0 - mix).sqrt()
 		}
